@@ -258,7 +258,10 @@ def main(tier, seed, replay=None):
             v_, n_ = parse_human(base[3])
             if v_ != base[1] or n_ != len(base[2]):
                 diffs.append((c, "the report text states conforms=%s with %d results; the report graph has conforms=%s with %d results" % (v_, n_, base[1], len(base[2])), base, None, opts))
-            if len(cli_jobs) < n_cli * 7 and (base[2] or rng.random() < 0.3):
+            has_details = any(r[5] for r in base[2])
+            want_detail = has_details and stats.get("cli_cases_with_details", 0) < (12 if big else 3)
+            if want_detail or (len(cli_jobs) < n_cli * 7 and (base[2] or rng.random() < 0.3)):
+                stats["cli_cases_with_details"] = stats.get("cli_cases_with_details", 0) + (1 if has_details else 0)
                 dp, sp = os.path.join(d, "d%d.nt" % j), os.path.join(d, "s%d.nt" % j)
                 c["data"].serialize(destination=dp, format="nt")
                 c["sg"].serialize(destination=sp, format="nt")
